@@ -230,7 +230,8 @@ def run_check(engine_factory, property_id, tier, base_seed, n_workers=None, scal
     step = max(1, len(ok_idx) // n_det)
     det_idx = [ok_idx[k] for k in range(0, len(ok_idx), step)][:n_det]
     det_jobs = [(jobs[i][0], jobs[i][1], jobs[i][2], False) for i in det_idx]
-    pass_b = digests_for(engine_factory, known_keys, det_jobs, max(2, (2 * n_workers) // 3))
+    pass_b_results = run_batch(engine_factory, known_keys, det_jobs, max(2, (2 * n_workers) // 3))
+    pass_b = {r["idx"]: (r["digest"], r["error"]) for r in pass_b_results}
     fresh_n = max(4, len(det_idx) // 4)
     pass_c = fresh_interpreter_digests(property_id, tier, base_seed, det_idx[:fresh_n], hashseed=4242, scale=scale)
     mismatches = []
@@ -249,16 +250,21 @@ def run_check(engine_factory, property_id, tier, base_seed, n_workers=None, scal
     }
     if inconclusive:
         det["inconclusive_runs"] = inconclusive
-    if mismatches:
+    nondeterministic = bool(mismatches)
+    extra = [r for r in pass_b_results if r["violations"] and not r["error"]] if nondeterministic else []
+    if nondeterministic and not any(r["violations"] for r in results) and not extra:
         for i, why in mismatches[:5]:
             print(f"HARNESS-NONDETERMINISM property={property_id} seed={jobs[i][1]} submode={jobs[i][2]} ({why})", flush=True)
         _write_evidence(engine, property_id, tier, base_seed, results, t0, det=det, note="nondeterminism", n_viol=0)
         return 2
+    if nondeterministic:
+        # some execution shows a violation: it is only believed if its minimised replay reproduces in a fresh process
+        print(f"[{property_id}] {len(mismatches)} digest mismatch(es) between repeated executions; violations below are reported only if their replay reproduces", flush=True)
 
     # ---- violations ----------------------------------------------------------------------------
     known_hit = {}
     unknown = {}
-    for r in results:
+    for r in list(results) + extra:
         for k in r["known_hits"]:
             known_hit[k] = known_hit.get(k, 0) + 1
         for v in r["violations"]:
@@ -272,6 +278,7 @@ def run_check(engine_factory, property_id, tier, base_seed, n_workers=None, scal
 
     n_viol = sum(len(v) for v in unknown.values())
     replay_paths = []
+    not_reproduced = 0
     rc = 0
     if unknown:
         rc = 1
@@ -293,8 +300,13 @@ def run_check(engine_factory, property_id, tier, base_seed, n_workers=None, scal
             if hasattr(engine, "finalise_replay_spec"):
                 mspec = engine.finalise_replay_spec(mspec, mres)
             path = write_replay(property_id, engine, mspec, mv[0], mres["digest"], base_seed)
-            prc, pout, perr = replay_in_fresh_process(property_id, path)
-            reproduced = prc == 1 and "REPLAY-REPRODUCED" in pout
+            for attempt in range(3 if nondeterministic else 1):
+                prc, pout, perr = replay_in_fresh_process(property_id, path)
+                # exit 1 of the replay = the trace violates the property again (same class, or - for behaviour that
+                # depends on a steered runtime event - another class of the same property)
+                reproduced = prc == 1 and "VIOLATION property=" in pout
+                if reproduced:
+                    break
             print(
                 f"[{property_id}] class={cls} occurrences={len(unknown[cls])} minimised {r['n_ops']}->{mres['n_ops']} ops "
                 f"in {used} executions; fresh-process replay reproduced={reproduced}",
@@ -303,15 +315,17 @@ def run_check(engine_factory, property_id, tier, base_seed, n_workers=None, scal
             print(f"[{property_id}]   detail: {mv[0]['detail']}", flush=True)
             if not reproduced:
                 print(f"HARNESS-NONDETERMINISM property={property_id} replay {path} did not reproduce in a fresh process:\n{pout[-800:]}\n{perr[-800:]}", flush=True)
-                rc = 2
+                not_reproduced += 1
             else:
                 print(f"VIOLATION property={property_id} replay={path}", flush=True)
-            replay_paths.append(path)
+                replay_paths.append(path)
+        if not replay_paths:
+            rc = 2  # violations were seen but none could be reproduced from its replay file: not believed
 
     _write_evidence(engine, property_id, tier, base_seed, results, t0, det=det, note=None, n_viol=n_viol,
                     replays=replay_paths, known_hit=known_hit, t_batch=t_batch)
-    if inconclusive and rc == 0:
-        rc = 2  # never exit 0 when some runs could not be completed
+    if (inconclusive or nondeterministic) and rc == 0:
+        rc = 2  # never exit 0 when some runs could not be completed or repeated executions disagreed
     dt = time.time() - t0
     print(f"[{property_id}] done in {dt:.1f}s rc={rc}", flush=True)
     return rc
